@@ -121,6 +121,13 @@ fn cosim<const N: usize>(ctx: &mut Ctx, flags: u8, start: u16, policy: Policy, r
     rig.finish(ctx);
 }
 
+/// C08: the notification decision follows the mode that was negotiated for the queue (suppression flag without
+/// RING_EVENT_IDX, whatever the event-index field holds; the event index with it), monitor 155
+pub fn run_modes(ctx: &mut Ctx) {
+    let per = ctx.budget(300, 10);
+    for flags in [0u8, 1, 2, 3] { ctx.tr.scenario(&format!("c08-notify-mode-n4-f{}", flags)); directed::<4>(ctx, flags, per); }
+}
+
 pub fn run(ctx: &mut Ctx) {
     let per = ctx.budget(1500, 40);
     for (i, flags) in [2u8, 3, 0, 1].iter().enumerate() {
